@@ -125,7 +125,7 @@ Proof. vm_compute; reflexivity. Qed.
    acceptEvent / acceptPublishTopic / acceptQuery and the upsert arm of topic.go *)
 Definition sample : entity :=
   mkE (bs "foo.v1") (bs "Foo") [] [mkK (mkU (bs "fooId") (KKey true None None) false false) false] []
-      [bs "ACTIVE"] [mkEv (bs "Create") []] [] [mkS [] []] (Some (mkQ true [])) [].
+      [bs "ACTIVE"] [mkEv (bs "Create") []] [] [mkS [] []] (Some (mkQ true [] false)) [].
 Definition externals (cs : list component) : list (bytes * bytes) :=
   flat_map (fun f => match f_type f with
                      | TObject (c :: p) n => [(c :: p, n)]
@@ -138,4 +138,116 @@ Definition gen_externals : list (bytes * bytes) :=
 Lemma model_externals_agree :
   forallb (pair_in gen_externals) (externals (expand_with sample [])) = true
   /\ forallb (pair_in (externals (expand_with sample []))) gen_externals = true.
+Proof. split; vm_compute; reflexivity. Qed.
+
+(* ---- the tables above, DERIVED FROM THE MODEL ---------------------------------------------------------
+   The lemmas so far compare the regenerated tables with tables typed into this file.  The ones
+   below compute the same facts from [expand_with] on a probe declaration, so that the model (not
+   a transcript of it) is what has to agree with entity.go. *)
+Local Open Scope list_scope.
+Definition probe : entity :=
+  mkE (bs "foo.v1") (bs "Foo") [] [mkK (mkU (bs "fooId") (KKey true None None) false false) false] []
+      [bs "ACTIVE"] [mkEv (bs "Create") []]
+      [mkC None None [mkM (bs "DoIt") 2 (bs "x") [] (Some [])]]
+      [mkS [] []] (Some (mkQ true [] false)) [].
+Definition probe_cs : list component := expand_with probe [].
+
+Fixpoint drop_prefix (p s : bytes) : option bytes :=
+  match p, s with
+  | [], _ => Some s
+  | x :: p', y :: s' => if x =? y then drop_prefix p' s' else None
+  | _ :: _, [] => None
+  end.
+Definition comp_name (c : component) : bytes :=
+  match c with CMsg _ m => m_name m | CEnum n _ => n | CSvc _ s => sv_name s end.
+
+(* fmt.Sprintf with one %s *)
+Fixpoint sprintf1 (fmt : list ascii) (arg : bytes) : bytes :=
+  match fmt with
+  | [] => []
+  | "%"%char :: "s"%char :: r => arg ++ map N_of_ascii r
+  | c :: r => N_of_ascii c :: sprintf1 r arg
+  end.
+Definition fmt_of (f fmt : string) : bool := pair_mem EntityGen.sprintf_formats (f, fmt).
+Definition lit_of (f lit : string) : bool := pair_mem EntityGen.suffix_sites (f, lit).
+
+(* (1) run order: the i-th function of entityNode.run defines the i-th landmark of the model's output:
+   the six schemas by the componentName literal that function uses, the services / topics by the
+   Sprintf format that function uses *)
+Definition landmark_names : list bytes :=
+  flat_map (fun c => match c with
+    | CMsg 0 m => [m_name m]
+    | CEnum n _ => [n]
+    | CSvc _ s => [sv_name s]
+    | _ => [] end) probe_cs.
+Definition expected_landmarks : list bytes :=
+  let X := bs "Foo" in
+  match EntityGen.run_order with
+  | [f1; f2; f3; f4; f5; f6; f7; f8; f9; f10] =>
+      let schema f lit := if lit_of f lit then [X ++ bs lit] else [] in
+      let by_fmt f fmt suffix := if fmt_of f fmt then [sprintf1 (list_ascii_of_string fmt) X ++ bs suffix] else [] in
+      schema f1 "Keys" ++ schema f2 "Data" ++ schema f3 "Status" ++ schema f4 "State"
+      ++ schema f5 "EventType" ++ schema f6 "Event"
+      ++ by_fmt f7 "%sQuery" "Service" ++ by_fmt f8 "%sCommand" "Service"
+      ++ by_fmt f9 "%sPublish" "Topic" ++ by_fmt f10 "%sSummary" "Topic"
+  | _ => []
+  end.
+Lemma run_order_from_model : landmark_names = expected_landmarks.
+Proof. vm_compute; reflexivity. Qed.
+
+(* (2) the literal property names each accept function writes are the names the model's
+   message for that function carries *)
+Definition lits_of (f : string) : list bytes :=
+  flat_map (fun p => if String.eqb (fst p) f then [bs (snd p)] else []) EntityGen.property_names.
+Definition same_names (a b : list bytes) : bool :=
+  forallb (fun x => existsb (bytes_eqb x) b) a && forallb (fun x => existsb (bytes_eqb x) a) b.
+Definition msg_named (n : string) : list bytes :=
+  flat_map (fun c => match c with
+    | CMsg _ m => if bytes_eqb (m_name m) (bs n) then map f_json (m_fields m) else []
+    | _ => [] end) probe_cs.
+Lemma property_names_from_model :
+  same_names (msg_named "FooState") (lits_of "acceptState") = true
+  /\ same_names (msg_named "FooEvent") (lits_of "acceptEvent") = true
+  /\ same_names (msg_named "FooEventMessage") (lits_of "acceptPublishTopic") = true
+  /\ same_names (filter (fun n => negb (bytes_eqb n (bs "fooId")) && negb (bytes_eqb n (bs "foo")))
+                        (msg_named "FooGetRequest" ++ msg_named "FooGetResponse" ++ msg_named "FooListRequest"
+                         ++ msg_named "FooListResponse" ++ msg_named "FooEventsRequest" ++ msg_named "FooEventsResponse"))
+                (lits_of "acceptQuery") = true.
+Proof. repeat split; vm_compute; reflexivity. Qed.
+
+(* (3) names built with Sprintf: the model's name is the code's format applied to ToCamel(name) *)
+Definition svc_methods (n : string) : list bytes :=
+  flat_map (fun c => match c with
+    | CSvc _ s => if bytes_eqb (sv_name s) (bs n) then map mt_name (sv_methods s) else []
+    | _ => [] end) probe_cs.
+Lemma formats_from_model :
+  fmt_of "acceptQuery" "%sGet" && fmt_of "acceptQuery" "%sList" && fmt_of "acceptQuery" "%sEvents" = true
+  /\ svc_methods "FooQueryService" =
+       map (fun f => sprintf1 (list_ascii_of_string f) (bs "Foo")) ["%sGet"; "%sList"; "%sEvents"]
+  /\ fmt_of "acceptPublishTopic" "%sEvent" = true
+  /\ svc_methods "FooPublishTopic" = [sprintf1 (list_ascii_of_string "%sEvent") (bs "Foo")]
+  /\ fmt_of "acceptQuery" "/%s/q" && fmt_of "acceptCommands" "/%s/c" = true
+  /\ existsb (fun c => match c with
+                       | CSvc _ s => existsb (fun m => has_prefix (sprintf1 (list_ascii_of_string "/%s/q") (base_url probe)) (mt_path m)) (sv_methods s)
+                       | _ => false end) probe_cs = true
+  /\ existsb (fun c => match c with
+                       | CSvc _ s => existsb (fun m => has_prefix (sprintf1 (list_ascii_of_string "/%s/c") (base_url probe)) (mt_path m)) (sv_methods s)
+                       | _ => false end) probe_cs = true.
+Proof. repeat split; vm_compute; reflexivity. Qed.
+
+(* (4) entity parts: the psm part numbers of the model's messages are the EntityPart constants the
+   accept functions set (ENTITY_PART_KEYS = 1, STATE = 2, EVENT = 3, DATA = 4: schema.proto) *)
+Definition part_number (s : string) : N :=
+  if String.eqb s "EntityPart_KEYS" then 1 else if String.eqb s "EntityPart_STATE" then 2
+  else if String.eqb s "EntityPart_EVENT" then 3 else if String.eqb s "EntityPart_DATA" then 4 else 0.
+Definition model_parts : list (bytes * N) :=
+  flat_map (fun c => match c with
+    | CMsg _ m => match m_psm m with Some (_, p) => [(m_name m, p)] | None => [] end
+    | _ => [] end) probe_cs.
+Definition gen_parts : list (bytes * N) :=
+  map (fun p => (bs "Foo" ++ match drop_prefix (bs "accept") (bs (fst p)) with Some s => s | None => [] end,
+                 part_number (snd p))) EntityGen.entity_parts.
+Lemma entity_parts_from_model :
+  forallb (fun p => existsb (fun q => bytes_eqb (fst p) (fst q) && (snd p =? snd q)) gen_parts) model_parts = true
+  /\ forallb (fun p => existsb (fun q => bytes_eqb (fst p) (fst q) && (snd p =? snd q)) model_parts) gen_parts = true.
 Proof. split; vm_compute; reflexivity. Qed.
